@@ -22,6 +22,8 @@ import (
 	proto "github.com/kubewharf/kubebrain-client/api/v2rpc"
 
 	"github.com/kubewharf/kubebrain/pkg/backend"
+	"github.com/kubewharf/kubebrain/pkg/backend/coder"
+	"github.com/kubewharf/kubebrain/pkg/storage"
 
 	"kbverif/lib"
 )
@@ -81,7 +83,24 @@ type Result struct {
 	Runs []Run
 }
 
-var engines = []string{lib.EngMem, lib.EngBadger, lib.EngTiKV, lib.EngWrapMem, lib.EngWrapBadger}
+// two more TiKV mocks with a second region: the border between two keys, and between two versions of one key
+const (
+	engTiKVSplitKey = "tikv-split-key"
+	engTiKVSplitVer = "tikv-split-version"
+)
+
+var engines = []string{lib.EngMem, lib.EngBadger, lib.EngTiKV, lib.EngWrapMem, lib.EngWrapBadger, engTiKVSplitKey, engTiKVSplitVer}
+
+func openEngine(eng, scratch string) (storage.KvStorage, func(), error) {
+	cd := coder.NewNormalCoder()
+	switch eng {
+	case engTiKVSplitKey:
+		return lib.NewTiKVSplit(cd.EncodeObjectKey([]byte("/registry/b"), 0))
+	case engTiKVSplitVer:
+		return lib.NewTiKVSplit(cd.EncodeObjectKey([]byte("/registry/a"), initRev+3))
+	}
+	return lib.NewEngine(eng, scratch)
+}
 
 // ---------- child: run histories on the real code ----------
 
@@ -157,7 +176,7 @@ func isWrite(k string) bool { return k == "create" || k == "update" || k == "del
 
 func runHistory(h History, eng, scratch string) Run {
 	run := Run{Engine: eng, Stalled: -1}
-	kv, closer, err := lib.NewEngine(eng, scratch)
+	kv, closer, err := openEngine(eng, scratch)
 	if err != nil {
 		run.Fail = "open: " + err.Error()
 		return run
@@ -368,6 +387,9 @@ func genHistory(r *lib.Rand, withEmpty bool) History {
 	for i := 0; i < n; i++ {
 		var q Req
 		k := r.PickB(keys)
+		if r.Chance(1, 3) {
+			k = keys[0] // /registry/a collects versions (the tikv-split-version border lies inside them)
+		}
 		switch c := r.Intn(100); {
 		case c < 25:
 			q = Req{Kind: "create", Key: k, Val: val()}
@@ -424,6 +446,36 @@ func genHistory(r *lib.Rand, withEmpty bool) History {
 
 func B(s string) []byte { return []byte(s) }
 
+// several versions of two keys, then reads pinned to every revision from before the first write to the latest:
+// with a region border between two versions of /registry/a (tikv-split-version) no read may lose or duplicate a key
+func versionsHistory() History {
+	a, b, ab := B("/registry/a"), B("/registry/b"), B("/registry/ab")
+	lo, hi := B("/registry/"), B("/registry0")
+	reqs := []Req{
+		{Kind: "create", Key: a, Val: B("v1")},                      // 1001
+		{Kind: "update", Key: a, Val: B("v2"), Rev: initRev + 1},    // 1002
+		{Kind: "update", Key: a, Val: B("v3"), Rev: initRev + 2},    // 1003
+		{Kind: "update", Key: a, Val: B("v4"), Rev: initRev + 3},    // 1004
+		{Kind: "create", Key: b, Val: B("w1")},                      // 1005
+		{Kind: "update", Key: a, Val: B("v5"), Rev: initRev + 4},    // 1006
+		{Kind: "create", Key: ab, Val: B("x1")},                     // 1007
+		{Kind: "update", Key: b, Val: B("w2"), Rev: initRev + 5},    // 1008
+		{Kind: "delete", Key: ab, Rev: initRev + 7},                 // 1009
+	}
+	for r := uint64(initRev); r <= initRev+10; r++ {
+		reqs = append(reqs, Req{Kind: "list", Key: lo, End: hi, Rev: r},
+			Req{Kind: "list", Key: lo, End: hi, Rev: r, Limit: 1},
+			Req{Kind: "list", Key: lo, End: hi, Rev: r, Limit: 2},
+			Req{Kind: "get", Key: a, Rev: r})
+	}
+	reqs = append(reqs, Req{Kind: "compact", Rev: initRev + 5})
+	for r := uint64(initRev + 4); r <= initRev+10; r++ {
+		reqs = append(reqs, Req{Kind: "list", Key: lo, End: hi, Rev: r}, Req{Kind: "list", Key: lo, End: hi, Rev: r, Limit: 1},
+			Req{Kind: "get", Key: a, Rev: r})
+	}
+	return History{Name: "fixed:versions-across-region-border", Reqs: reqs}
+}
+
 func corpus() []History {
 	a, b := B("/registry/a"), B("/registry/b")
 	lo, hi := B("/registry/"), B("/registry0")
@@ -460,6 +512,14 @@ func corpus() []History {
 			{Kind: "list", Key: lo, End: hi, Limit: 1}, {Kind: "list", Key: lo, End: hi, Limit: 3}, {Kind: "list", Key: lo, End: hi, Limit: 4},
 			{Kind: "list", Key: hi, End: lo}, {Kind: "list", Key: lo, End: B("")}, {Kind: "list", Key: a, End: a},
 			{Kind: "list", Key: a, End: b}, {Kind: "list", Key: B("/"), End: B("0")}}},
+		{Name: "fixed:update-after-compacted-delete", Reqs: []Req{ // the index record is gone again: not an error on any engine
+			{Kind: "create", Key: a, Val: B("v1")}, {Kind: "delete", Key: a, Rev: initRev + 1},
+			{Kind: "update", Key: a, Val: B("v2"), Rev: initRev + 1},
+			{Kind: "compact"}, {Kind: "get", Key: a},
+			{Kind: "update", Key: a, Val: B("v3"), Rev: initRev + 1}, {Kind: "update", Key: a, Val: B("v3"), Rev: initRev + 2},
+			{Kind: "delete", Key: a, Rev: initRev + 1}, {Kind: "get", Key: a}, {Kind: "list", Key: lo, End: hi},
+			{Kind: "create", Key: a, Val: B("v4")}, {Kind: "get", Key: a}}},
+		versionsHistory(),
 		{Name: "fixed:empty-value", Reqs: []Req{
 			{Kind: "create", Key: a, Val: B("")}, {Kind: "get", Key: a}, {Kind: "list", Key: lo, End: hi},
 			{Kind: "update", Key: a, Val: B("v2"), Rev: initRev + 1}, {Kind: "get", Key: a}}},
@@ -515,8 +575,9 @@ func coqResp(r Resp) string {
 	return lib.App("PCompact", lib.N(r.Hdr), lib.Bool(r.Err))
 }
 
+// the region layout is not part of the adapter model: all three TiKV mocks are checked against the same model
 var coqEng = map[string]string{lib.EngMem: "EMem", lib.EngBadger: "EBadger", lib.EngTiKV: "ETiKV",
-	lib.EngWrapMem: "EWrapMem", lib.EngWrapBadger: "EWrapBadger"}
+	lib.EngWrapMem: "EWrapMem", lib.EngWrapBadger: "EWrapBadger", engTiKVSplitKey: "ETiKV", engTiKVSplitVer: "ETiKV"}
 
 func coqRun(r Run) string {
 	rs := make([]string, len(r.Resps))
@@ -694,7 +755,7 @@ func main() {
 			Outcomes: ocs})
 	}
 	w.Stats.Extra["request_kinds"] = reqKinds
-	if err := w.Finish("one case = one sequential history (8-30 requests) run on 5 engines from revision 1000; keys from a pool of 6 (5 under the backend prefix), expectations steered to be correct / stale / zero / future; non-trivial = at least three different request outcomes; distinct = SHA-256 of the Coq case"); err != nil {
+	if err := w.Finish("one case = one sequential history (8-30 requests) run on 7 engines (memkv, Badger, TiKV mock with one region / a border between two keys / a border inside one key's versions, metrics wrapper over memkv and Badger) from revision 1000; keys from a pool of 6 (5 under the backend prefix), expectations steered to be correct / stale / zero / future; non-trivial = at least three different request outcomes; distinct = SHA-256 of the Coq case"); err != nil {
 		fmt.Fprintln(os.Stderr, err)
 		os.Exit(2)
 	}
